@@ -1,7 +1,7 @@
 (* C10 — Expressions evaluate with C precedence and associativity, repeatably.
    This file holds only the property theorems (closed by `exact`), their non-vacuity examples and
    Print Assumptions.  Model: Model/Expr.v (the code), Model/ExprSpec.v (the C grammar and its meaning). *)
-From VF Require Import Model.ExprSpec Proofs.ExprCorrect.
+From VF Require Import Model.ExprSpec Proofs.ExprCorrect Proofs.LexerProps.
 Open Scope string_scope. Open Scope list_scope. Open Scope Z_scope.
 
 (* Every parse tree of the stratified C grammar (binary * / % + - << >> & ^ |, unary - ~, parentheses,
@@ -29,6 +29,14 @@ Print Assumptions eval_repeatable.
 Theorem minus_classified : forall e, wf 0 e = true -> rewrite_minus (flat e) = flatm e.
 Proof. exact rewrite_minus_flat. Qed.
 Print Assumptions minus_classified.
+
+(* the tokenizer: well-formed tokens (identifiers, decimal numbers, the one-character operators, << and >>) written with one blank after
+   each are read back as exactly that token list, for every such list *)
+Theorem tokenizer_reads_back : forall toks, Forall wf_tok toks -> tokenize (str_of (render toks)) = Some (map str_of toks).
+Proof. exact tokenize_render. Qed.
+Print Assumptions tokenizer_reads_back.
+Example ex_tokens : tokenize "n * 2 + ( m >> 1 ) - 10" = Some ["n"; "*"; "2"; "+"; "("; "m"; ">>"; "1"; ")"; "-"; "10"].
+Proof. vm_compute. reflexivity. Qed.
 
 (* non-vacuity: a concrete tree with every construct meets the hypotheses, and the theorem's two sides compute *)
 Definition ex_tree : expr :=
